@@ -60,6 +60,11 @@ Step(s, D, ev) ==
       [] ev.t = "imported" ->
            LET r == ImplImportedM(s.ix, D, s.ix.impC, ev.f)
            IN  [s EXCEPT !.ix.impC = r.memo, !.ans = r.set]
+      [] ev.t = "cycles" ->
+           \* detect_fixture_cycles (resolver.rs): cycle_cache is valid while the definitions version is unchanged
+           LET hit == s.ix.cycC.ver = s.ix.version
+               val == IF hit THEN s.ix.cycC.val ELSE ImplCycleNames(s.ix)
+           IN  [s EXCEPT !.ix.cycC = [ver |-> s.ix.version, val |-> val], !.ans = val]
       [] ev.t = "close" -> [s EXCEPT !.ix = DropCaches(@, ev.f), !.ans = <<>>]
       [] ev.t = "evict" -> [s EXCEPT !.ix = DropCaches(@, ev.f), !.ans = <<>>]
 
@@ -67,7 +72,7 @@ RECURSIVE RunFrom(_, _, _)
 RunFrom(s, D, h) == IF h = <<>> THEN s ELSE RunFrom(Step(s, D, Head(h)), D, Tail(h))
 Run(h, D) == RunFrom(InitSt, D, h)
 
-IsQuery(ev) == ev.t \in {"avail", "goto", "imported"}
+IsQuery(ev) == ev.t \in {"avail", "goto", "imported", "cycles"}
 EditsOf(h) == SelectSeq(h, LAMBDA ev : ev.t \in {"edit", "scan"})
 NonEdits(h) == Len(SelectSeq(h, LAMBDA ev : ev.t \notin {"edit", "scan"}))
 
@@ -80,6 +85,7 @@ Events(s) ==
     \cup (IF "avail" \in EventKinds THEN { Ev("avail", f, 0, "-") : f \in { g \in Files : RoleOf[g] \in {"test", "conftest"} } } ELSE {})
     \cup (IF "goto" \in EventKinds THEN { Ev("goto", f, 0, n) : f \in { g \in Files : RoleOf[g] = "test" }, n \in HNames } ELSE {})
     \cup (IF "imported" \in EventKinds THEN { Ev("imported", f, 0, "-") : f \in { g \in Files : RoleOf[g] = "conftest" } } ELSE {})
+    \cup (IF "cycles" \in EventKinds THEN { Ev("cycles", "-", 0, "-") } ELSE {})
     \cup (IF "close" \in EventKinds
           THEN { Ev("close", f, 0, "-") : f \in { g \in Files : s.ix.cached[g] # NoMod /\ s.ix.cached[g] = DiskOf[g] } } ELSE {})
     \cup (IF "evict" \in EventKinds
@@ -224,7 +230,10 @@ HVersions7 ==
        CASE f = "c" -> << Module(<<Star("h")>>),
                           Module(<<PlainDef("x", <<>>), Star("h")>>),
                           Module(<<PlainDef("n", <<>>)>>),
-                          Module(<<>>) >>
+                          Module(<<>>),
+                          \* the same fixture NAMES with and without a dependency cycle between them
+                          Module(<<PlainDef("n", <<"x">>), PlainDef("x", <<"n">>)>>),
+                          Module(<<PlainDef("n", <<"x">>), PlainDef("x", <<>>)>>) >>
          [] f = "t" -> << Module(<<Test("test_1", <<"n">>)>>),
                           Module(<<PlainDef("x", <<>>), Test("test_1", <<"n", "x">>)>>) >>
          [] f = "h" -> << Module(<<PlainDef("n", <<>>)>>),
@@ -233,6 +242,25 @@ HVersions7 ==
                           Module(<<Star("c")>>) >>]
 HDisk7 == [f \in HFiles |-> HVersions7[f][1]]
 HKindsEdit == {"edit"}
-HKinds7 == {"edit", "avail", "goto", "imported", "close", "evict"}
+HKinds7 == {"edit", "avail", "goto", "imported", "cycles", "close", "evict"}
 HKinds7Scan == {"avail", "goto", "imported", "close", "evict", "scan", "edit"}
+
+\* C07, conftest CHAIN universe: c0 (R) and c1 (R/a) both star-import the shared module m (R/a), which
+\* re-exports the base module d (R/a); tests t0 (R, sees only c0) and t1 (R/a, sees c1 then c0).  A walk
+\* for t1 passes through m twice (once per conftest); what it memoises must not change what t0 is told.
+H2Files == {"c0", "c1", "m", "d", "t0", "t1"}
+H2Dirs  == {"R", "Ra"}
+H2DirOf == [f \in H2Files |-> IF f \in {"c0", "t0"} THEN "R" ELSE "Ra"]
+H2ParentOf == [d \in H2Dirs |-> IF d = "Ra" THEN "R" ELSE "NODIR"]
+H2RoleOf == [f \in H2Files |-> CASE f \in {"c0", "c1"} -> "conftest" [] f \in {"t0", "t1"} -> "test" [] OTHER -> "module"]
+H2Versions ==
+    [f \in H2Files |->
+       CASE f = "c0" -> << Module(<<Star("m")>>) >>
+         [] f = "c1" -> << Module(<<Star("m")>>), Module(<<PlainDef("x", <<>>), Star("m")>>), Module(<<Star("d")>>) >>
+         [] f = "m"  -> << Module(<<PlainDef("x", <<>>), Star("d")>>), Module(<<Star("d")>>) >>
+         [] f = "d"  -> << Module(<<PlainDef("n", <<>>)>>) >>
+         [] f = "t0" -> << Module(<<Test("test_1", <<"n", "x">>)>>) >>
+         [] f = "t1" -> << Module(<<Test("test_1", <<"n", "x">>)>>) >>]
+H2Disk == [f \in H2Files |-> H2Versions[f][1]]
+HKinds2 == {"edit", "avail", "goto", "imported", "close"}
 =============================================================================
